@@ -2,6 +2,8 @@ package orch
 
 import (
 	"fmt"
+	"os"
+	"strings"
 	"time"
 
 	"verifsim/gen"
@@ -75,10 +77,82 @@ func faultable(e simnet.Event) bool {
 	return false
 }
 
+// clusteredReduce is a Reduce whose producers hold disjoint, ascending key ranges
+// (sorted distinct keys dealt to the shards in contiguous blocks): in the reduce-side
+// merge the other producers' streams are exhausted while the last producer's stream
+// is still mostly unread, so a loss in the middle of that shuffle read hits the merge
+// with one stream left.
+func clusteredReduce(r gen.Rand, tag string) *spec.Spec {
+	n := r.Pick(200, 400, 700, 1200)
+	src := spec.Node{Op: "const", KT: "int", N: n, Card: n, Shards: r.Pick(2, 2, 3, 4), DSeed: 5 + 12*r.Intn(50)}
+	if r.Chance(0.4) {
+		src.Op = "readerfunc"
+		src.Chunks = []int{r.Pick(1, 7, 64, 1000)}
+		src.EOFData = r.Chance(0.5)
+	}
+	nodes := []spec.Node{src}
+	if r.Chance(0.5) {
+		nodes = append(nodes, spec.Node{Op: "map", Fn: "inc", M: r.Pick(1, 2), In: []int{0}})
+	}
+	nodes = append(nodes, spec.Node{Op: "reduce", Fn: r.PickS("sum", "min", "xor"), In: []int{len(nodes) - 1}})
+	if r.Chance(0.5) {
+		nodes = append(nodes, spec.Node{Op: "map", Fn: "inc", M: 1, In: []int{len(nodes) - 1}})
+	}
+	sp := &spec.Spec{Nodes: nodes, Tag: tag}
+	if _, err := sp.Types(); err != nil {
+		panic(fmt.Sprintf("clusteredReduce: %v", err))
+	}
+	return sp
+}
+
+// midStreamLosses returns, for every streamed Worker.Read body of the fault-free
+// run that is long enough, faults that deliver part of the body and then kill the
+// machine serving it.
+func midStreamLosses(evs []simnet.Event, maxBounds int) []*simnet.Fault {
+	var out []*simnet.Fault
+	seen := map[string]bool{}
+	for _, e := range evs {
+		if e.Point != "chunk" || e.Method != "Worker.Read" || e.Len < 48 {
+			continue
+		}
+		key := e.Key
+		off := int64(0)
+		if i := strings.LastIndex(key, "+"); i >= 0 {
+			fmt.Sscan(key[i+1:], &off)
+			key = key[:i]
+		}
+		if seen[e.Callee+"|"+key] {
+			continue
+		}
+		seen[e.Callee+"|"+key] = true
+		at := simnet.Match{Point: "chunk", Method: "Worker.Read", Callee: e.Callee, Key: key, Occ: 1}
+		for _, num := range []int64{1, 2, 3} {
+			out = append(out, &simnet.Fault{At: at, Do: "cutkill", Arg: off + int64(e.Len)*num/4})
+		}
+		// ... and exactly at message boundaries of the row stream (every batch
+		// boundary is one): what was delivered so far is complete and valid.
+		bs := e.Bounds
+		if len(bs) > 0 && bs[0] == 0 {
+			bs = bs[1:]
+		}
+		step := 1
+		if maxBounds > 0 && len(bs) > maxBounds {
+			step = (len(bs) + maxBounds - 1) / maxBounds
+		}
+		for k := len(bs) - 1; k >= 0; k -= step {
+			out = append(out, &simnet.Fault{At: at, Do: "cutkill", Arg: bs[k]})
+		}
+	}
+	return out
+}
+
 // c02Script builds the client script: run (optionally a second Func over the
 // first result) and scan.
 func c02Script(r gen.Rand, kind int, chunk int) []world.Step {
 	sp, _ := faultSuiteSpec(r, kind, "a", chunk)
+	if kind%8 == 7 {
+		sp = clusteredReduce(r, "a")
+	}
 	steps := []world.Step{{Op: "run", ID: "r1", Func: "prog0", Spec: sp}}
 	last := "r1"
 	if kind%7 == 6 || r.Chance(0.25) {
@@ -108,6 +182,9 @@ func GenC02(seed uint64, i int) *world.Case {
 	s := seedFor(seed, "C02", i)
 	r := gen.New(s)
 	cfg := clusterConfig(r)
+	if i%8 == 7 {
+		cfg.Chunk = r.Pick(8, 16, 16, 32) // several buffer refills per stream
+	}
 	c := &world.Case{Format: 1, Property: "C02", Seed: s, Config: cfg,
 		Script: c02Script(r, i, cfg.Chunk),
 		Oracle: world.Oracle{Rows: true, Liveness: true}}
@@ -139,6 +216,12 @@ func GenC02(seed uint64, i int) *world.Case {
 	sortStrings(mlist)
 	nk := r.Pick(1, 1, 1, 1, 2, 2, 3, 4)
 	kills := 0
+	if ms := midStreamLosses(evs, 12); len(ms) > 0 && (i%8 == 7 || r.Chance(0.1)) {
+		// A machine lost in the middle of a shuffle (or scan) read.
+		c.Faults = append(c.Faults, ms[r.Intn(len(ms))])
+		kills++
+		nk = r.Pick(0, 0, 1)
+	}
 	for k := 0; k < nk; k++ {
 		e := cands[r.Intn(len(cands))]
 		f := &simnet.Fault{At: simnet.Match{Point: e.Point, Method: e.Method, Callee: e.Callee, Key: e.Key, Occ: e.Occ}}
@@ -198,6 +281,9 @@ func sweepC02(seed uint64, which int) []*world.Case {
 	cfg := clusterConfig(r)
 	cfg.Parallelism = 4
 	cfg.Procs = 2
+	if which%8 == 7 {
+		cfg.Chunk = 16
+	}
 	base := &world.Case{Format: 1, Property: "C02", Seed: s, Config: cfg,
 		Script: c02Script(r, which, cfg.Chunk),
 		Oracle: world.Oracle{Rows: true, Liveness: true}}
@@ -239,6 +325,12 @@ func sweepC02(seed uint64, which int) []*world.Case {
 			out = append(out, c)
 		}
 	}
+	// The serving machine dies at 1/4, 1/2, 3/4 of every streamed read body.
+	for _, f := range midStreamLosses(evs, 24) {
+		c := cloneCase(base)
+		c.Faults = []*simnet.Fault{f}
+		out = append(out, c)
+	}
 	return out
 }
 
@@ -253,8 +345,23 @@ func C02(tier string, seed uint64) int {
 		budget = 25 * time.Minute
 	}
 	var sweep []*world.Case
-	for k := 0; k < nsweep; k++ {
+	if ks := os.Getenv("VERIF_C02_SWEEP_KINDS"); ks != "" {
+		// Debugging aid: sweep only the given program kinds, no random part.
+		nsweep, n = 0, 0
+		for _, f := range strings.Split(ks, ",") {
+			var k int
+			fmt.Sscan(f, &k)
+			sweep = append(sweep, sweepC02(seed, k)...)
+			nsweep++
+		}
+	}
+	for k := 0; k < nsweep && os.Getenv("VERIF_C02_SWEEP_KINDS") == ""; k++ {
 		sweep = append(sweep, sweepC02(seed, k)...)
+	}
+	if nsweep < 8 && os.Getenv("VERIF_C02_SWEEP_KINDS") == "" {
+		// The quick tier always includes the range-clustered reduce (program kind 7).
+		sweep = append(sweep, sweepC02(seed, 7)...)
+		nsweep++
 	}
 	fmt.Printf("verif: C02 single-fault sweep: %d cases over %d base programs\n", len(sweep), nsweep)
 	b := &Batch{
